@@ -197,6 +197,9 @@ pub fn update(ix: &Ix, timeout: Duration) -> UpdateOutcome {
   let index = ix.index.clone();
   std::thread::spawn(move || {
     let r = std::panic::catch_unwind(std::panic::AssertUnwindSafe(|| index.update()));
+    // release this thread's handle on the database before reporting, so that the caller may
+    // drop its own and reopen the index at once
+    drop(index);
     let _ = tx.send(match r {
       Ok(Ok(())) => UpdateOutcome::Ok,
       Ok(Err(e)) => UpdateOutcome::Err(format!("{e:#}").lines().next().unwrap_or("").to_string()),
